@@ -14,6 +14,13 @@ def _run_view(prop: str, project: Project, tier: str) -> R.Report:
         mod.check(project, rep)
     except R.Abort as e:
         rep.notes.append(f"analysis stopped early after a finding: {e}")
+    except AnalysisError as e:
+        # a rule further on could not read its subject — if a finding that is not on the known list already stands, it is
+        # the verdict (the unreadable shape is most likely a consequence of the same change); otherwise the run is undecided
+        if rep.findings() and R.classify(rep)[1]:
+            rep.notes.append(f"analysis stopped early after a finding: {e}")
+        else:
+            raise
     rep.check_nonvacuous()
     inl = getattr(project, "inliner", None)
     if inl is not None and inl.renamed:
